@@ -214,6 +214,16 @@ func genSession(r *rand.Rand, id string) *Case {
 	if r.Intn(6) == 0 {
 		in = append(in, startup(80877103, nil, false)...) // SSLRequest (answered 'N')
 	}
+	if c.TLS == 0 && r.Intn(12) == 0 {
+		// encryption requests repeated or combined in front of the start-up packet (SSLRequest, GSSENCRequest):
+		// whatever the server makes of them, its output stays a valid backend stream
+		seqs := [][]uint32{{80877103, 80877103}, {80877103, 80877103, 80877103}, {80877104}, {80877104, 80877103},
+			{80877103, 80877104}, {80877104, 80877104}}
+		in = in[:0]
+		for _, v := range seqs[r.Intn(len(seqs))] {
+			in = append(in, startup(v, nil, false)...)
+		}
+	}
 	in = append(in, startup(196608, kv, r.Intn(20) != 0)...)
 	if r.Intn(4) == 0 {
 		c.Auth = true
@@ -253,6 +263,9 @@ func genSession(r *rand.Rand, id string) *Case {
 	if r.Intn(12) == 0 {
 		c.RF = true
 		c.In = in[:r.Intn(len(in)+1)]
+		if r.Intn(2) == 0 {
+			c.Extra["rto"] = "1"
+		}
 	}
 	if r.Intn(12) == 0 {
 		c.WF = r.Intn(12)
